@@ -68,6 +68,14 @@ class Game2048H(Harness):
     INVALID = "ignore"
     REF_DRAWS = True       # the reference reads the spawned tile (fresh randomness) from S'
 
+    def __init__(self, cfg, **over):
+        super().__init__(cfg, **over)
+        # move_left_row / can_move_left_row: every iteration advances origin_idx or target_idx (target <= origin < n), so at most
+        # 2n-2 iterations run; the engine unrolls `UNROLL` iterations symbolically and PROVES the loop has stopped (unwinding
+        # assertion), so a tight bound only removes dead iterations from every term (default 16)
+        self.UNROLL = 2 * self.env.board_size - 1
+        J.COMPACT_SCATTER = True   # row.at[idx].set(v) as one ite per cell (engine/jx2smt.py), process-wide, own job process
+
     def n(self):
         return self.env.board_size
 
